@@ -16,3 +16,13 @@ for d in sorted(os.listdir('/verif/seeded')):
 print("| id | change | checks that fire (quick, seed 0) | owner missed it at first |")
 print("|---|---|---|---|")
 print('\n'.join(rows))
+
+import sys
+if len(sys.argv) > 1 and sys.argv[1] == "--write":
+    import io, contextlib
+    p = '/verif/DESIGN.md'
+    s = open(p).read()
+    a = s.index("<!-- seeded-table-begin -->") + len("<!-- seeded-table-begin -->")
+    b = s.index("<!-- seeded-table-end -->")
+    tbl = "| id | change | checks that fire (quick, seed 0) | owner missed it at first |\n|---|---|---|---|\n" + "\n".join(rows)
+    open(p, 'w').write(s[:a] + "\n" + tbl + "\n" + s[b:])
